@@ -134,9 +134,14 @@ MUTANTS = [
     {"name": "delete_current_repoints_by_max_id", "props": ["C09", "C15"], "file": SM,
      "find": "        for entry in reversed(metadata.snapshot_log):\n            if entry.snapshot_id in remaining_ids:\n                return entry.snapshot_id",
      "repl": "        return max(remaining_ids)"},
-    {"name": "append_skips_schema_validation", "props": ["C11"], "file": T,
-     "find": "        if self._schema_signature(schema) != self._schema_signature(table_schema):\n            raise ValueError(\n                \"Provided schema does not match",
-     "repl": "        if False:\n            raise ValueError(\n                \"Provided schema does not match"},
+    # (a mutant that merely skips the schema-argument comparison is EQUIVALENT since fix c6108cc: the persisted
+    #  schema is used for validation and writing whatever the argument says)
+    {"name": "append_writes_with_argument_schema", "props": ["C11"], "file": T,
+     "find": "            if persisted is not None:\n                schema = persisted",
+     "repl": "            if persisted is not None:\n                pass"},
+    {"name": "prebuilt_file_schema_not_checked", "props": ["C11"], "file": T,
+     "find": "        if not actual.equals(expected, check_metadata=False):",
+     "repl": "        if False:"},
     {"name": "scan_skips_unreadable_data_file", "props": ["C14"], "file": T,
      "find": "            tables = [read_one(df) for df in data_files]",
      "repl": "            tables = []\n            for df in data_files:\n                try:\n                    tables.append(read_one(df))\n                except Exception:\n                    pass\n            if not tables:\n                return None"},
@@ -148,7 +153,7 @@ MUTANTS = [
      "repl": "            if False:\n                raise CorruptDataError(\n                    f\"Checksum mismatch for data file {data_file.file_path}: \""},
     {"name": "reader_double_refresh", "props": ["C02"], "file": T,
      "find": "        metadata = self.metadata_manager.refresh()\n        snapshot = None\n        if metadata is not None and metadata.current_snapshot_id is not None:",
-     "repl": "        self.metadata_manager.refresh()\n        metadata = self.metadata_manager.refresh()\n        snapshot = self.current_snapshot()\n        if False:"},
+     "repl": "        snapshot = self.current_snapshot()\n        metadata = self.metadata_manager.refresh()\n        if False:"},
     {"name": "gc_young_files_deleted", "props": ["C06"], "file": G,
      "find": "                    if self.storage.get_modified_time(file_rel_path) * 1000 < cutoff_time:",
      "repl": "                    if True:"},
@@ -164,7 +169,7 @@ REVERTS = [
     ("9ca1d8a", ["C01"]), ("336ed11", ["C04"]), ("d830242", ["C04"]), ("abb63e7", ["C02"]), ("66ad869", ["C05"]),
 ("dba0733", ["C07"]), ("0c9977b", ["C07"]), ("2a5d64e", ["C07"]), ("b46438b", ["C07"]),
     ("02d4ecb", ["C08"]), ("0ad9135", ["C09"]), ("6e33d4e", ["C10"]), ("c6108cc", ["C11"]), ("e362918", ["C11"]),
-    ("e7f960c", ["C20"]),
+    ("e7f960c", ["C20"]), ("b4313ab", ["C04"]),
 ]
 
 
